@@ -343,6 +343,45 @@ impl TwoState {
                 };
                 out.insert("r".into(), json!(r));
             }
+            #[cfg(feature = "optim")]
+            "optimize" => {
+                use volute::sop::optim::{optimize_esop_mip, optimize_sop_mip, optimize_sopes_mip};
+                let n = arg_usize(op, "n");
+                let fs: Vec<Lut> = op["fs"]
+                    .as_array()
+                    .unwrap()
+                    .iter()
+                    .map(|f| {
+                        let on: Vec<usize> = f.as_array().unwrap().iter().map(|x| x.as_u64().unwrap() as usize).collect();
+                        Lut::from_blocks(n, &pack(n, &on))
+                    })
+                    .collect();
+                let andc = op["andc"].as_i64().unwrap() as i32;
+                let xorc = op["xorc"].as_i64().unwrap() as i32;
+                let orc = op["orc"].as_i64().unwrap() as i32;
+                let none: Vec<Value> = Vec::new();
+                let r: Vec<Value> = match arg_str(op, "kind") {
+                    "sop" => optimize_sop_mip(&fs, andc, orc)
+                        .iter()
+                        .map(|s| json!({"cubes": s.cubes().iter().map(proj_cube).collect::<Vec<_>>(), "ecubes": none,
+                                        "vals": vals_of(n, |m| s.value(m)), "lut": enc(&Lut::from(s))}))
+                        .collect(),
+                    "sopes" => optimize_sopes_mip(&fs, andc, xorc, orc)
+                        .iter()
+                        .map(|(s, x)| json!({"cubes": s.cubes().iter().map(proj_cube).collect::<Vec<_>>(),
+                                             "ecubes": x.cubes().iter().map(proj_ecube).collect::<Vec<_>>(),
+                                             "vals": vals_of(n, |m| s.value(m) || x.value(m)),
+                                             "lut": enc(&(Lut::from(s) | Lut::from(x)))}))
+                        .collect(),
+                    "esop" => optimize_esop_mip(&fs, andc, xorc)
+                        .iter()
+                        .map(|s| json!({"cubes": s.cubes().iter().map(proj_cube).collect::<Vec<_>>(), "ecubes": none,
+                                        "vals": vals_of(n, |m| s.value(m)), "lut": enc(&Lut::from(s))}))
+                        .collect(),
+                    _ => panic!("HARNESS: bad optimizer kind"),
+                };
+                out.insert("r".into(), json!(r));
+            }
             _ => panic!("HARNESS: unknown two-level op {}", name),
         }
         out
